@@ -72,6 +72,40 @@ fn long_seq(rng: &mut Rng, n: usize, dense: bool) -> Vec<u8> {
         .collect()
 }
 
+/// trace minmid <seed> <kv>: one run over up to ~2500 bases with (w, m) drawn from a wide set: m anywhere in 1..31, the number of
+/// m-mers per window (w - m + 1) at and beside powers of two up to 257 (up to w = 31 for the k-mer variant)
+pub fn min_mid(seed: u64, kv: bool) {
+    let mut rng = Rng::new(seed);
+    let m = 1 + rng.below(31) as usize;
+    let w = if kv {
+        rng.range(m as u64, 31) as usize
+    } else {
+        m + *rng.pick(&[1usize, 2, 3, 5, 8, 16, 17, 32, 33, 64, 65, 100, 128, 129, 256, 257]) - 1
+    };
+    // (the judge recomputes every window's minimiser: keep windows x m-mers per window x m within a budget)
+    let windows = (4_000_000 / ((w - m + 1) * m * m)).clamp(60, 2500);      // (comparing two m-mers is quadratic in m for TLC)
+    let n = windows + w;
+    let style = rng.below(3);
+    let unit: Vec<u8> = (0..(2 + rng.below(9))).map(|_| *rng.pick(b"ACGT")).collect();
+    let s: Vec<u8> = (0..n)
+        .map(|x| {
+            if x % 1013 == 1012 {
+                b'N'
+            } else if style == 0 || (style == 1 && x % 300 < 150) {
+                unit[x % unit.len()]           // tandem repeat: ties and palindromic m-mers abound
+            } else {
+                *rng.pick(b"ACGTacgu")
+            }
+        })
+        .collect();
+    if kv {
+        kmermin_run(&s, w, m);
+    } else {
+        minimiser_run(&s, w, m);
+    }
+    println!("{}", json!({"ev":"eof"}));
+}
+
 /// clean stretches separated by gaps of ONE repeated ambiguous byte, every gap length 0..=130 once
 fn gap_seq(rng: &mut Rng, clean: usize) -> Vec<u8> {
     let b = *rng.pick(b"N-*.nX");
